@@ -24,4 +24,6 @@ def run(ctx):
     ctx.run("C14.EXACT", "R-ORDER", zf.exact)
     ctx.run("C14.EOF-NOT-DATA", "R-ORDER", zf.eof_not_data)
     ctx.run("C14.RECOMPUTE", "R-ERRDISC", mem.load_tolerant)
+    ctx.run("C14.NO-SWALLOW", "R-ERRDISC", zf.no_swallow)
+    ctx.run("C14.REWRITE", "R-ORDER", mem.dump_always_writes)
     ctx.run("C13.CURSOR", "R-DUAL", zf.cursor)
